@@ -136,7 +136,7 @@ func GenStressWide(t *rapid.T) CaseS {
 	return c
 }
 
-var wideRule = "rapid: tree.BTree (degree 2) preloaded with 300-700 static keys (thorough 990; one case in eight 1100-2100, a quarter of those 4200; all slots but 0-12 drawn holes; one case in twelve starts every reader with a full scan whose filter burns 60 or 100 million loop iterations in total, in its first 1-2 passes, so that the scan holds the read lock for tens of milliseconds while the movers queue up), 1-3 movers (2-3 if there is no writer) that each toggle one item between a key in the lowest tenth and a key in the highest tenth of the key range with Update (40-600 moves, thorough 3000), 0-2 owner-partitioned writers spread over the whole range (programs of 1-20 calls, 1-4 times), 1-3 readers looping over 1-6 drawn calls until the writers are done: mostly full scans in both directions (pivot nil or just outside the range, sometimes inside; filter mostly all / even keys; n mostly above everything the tree can hold, sometimes len/2, 300, 520), a few Gets; spin barrier, GOMAXPROCS 2/4/8. Executor and oracle of the stress part: every scan strictly ordered, within bound and limit, filter-true, only stored items, every static key of the covered range present, and exactly one key of every mover pair whose two keys lie in the covered range (a scan is one atomic step, Update is one atomic step - no schedule may show the item twice or not at all); writers and movers see their own keys sequentially; end state = static + writers' models + movers, VerifCheck. Non-trivial: >= 2 writing goroutines and at least one read completed while writers were active; distinct = distinct case JSON"
+var wideRule = "rapid: tree.BTree (degree 2) preloaded with 300-700 static keys (thorough 990; about one case in fourteen 1100-2100, a few of those 4200; all slots but 0-12 drawn holes; about one case in ten starts its first reader with a full scan (nil pivot, filter all) whose filter burns 40, 60 or 100 million loop iterations in total, in its first pass only, so that the scan holds the read lock for tens of milliseconds while the movers queue up), 1-3 movers (2-3 if there is no writer) that each toggle one item between a key in the lowest tenth and a key in the highest tenth of the key range with Update (40-600 moves, thorough 3000), 0-2 owner-partitioned writers spread over the whole range (programs of 1-20 calls, 1-4 times), 1-3 readers looping over 1-6 drawn calls until the writers are done: mostly full scans in both directions (pivot nil or just outside the range, sometimes inside; filter mostly all / even keys; n mostly above everything the tree can hold, sometimes len/2, 300, 520), a few Gets; spin barrier, GOMAXPROCS 2/4/8. Executor and oracle of the stress part: every scan strictly ordered, within bound and limit, filter-true, only stored items, every static key of the covered range present, and exactly one key of every mover pair whose two keys lie in the covered range (a scan is one atomic step, Update is one atomic step - no schedule may show the item twice or not at all); writers and movers see their own keys sequentially; end state = static + writers' models + movers, VerifCheck. Non-trivial: >= 2 writing goroutines and at least one read completed while writers were active; distinct = distinct case JSON"
 
 var PartStressWide = &vkit.Part[CaseS]{
 	Property: Property, Name: "stress-wide",
